@@ -27,10 +27,63 @@ let base64_case (toks : string list) : string =
     Printf.sprintf "G %s %s" (show (M.get_basic false v)) (show (M.get_basic true v))
   | _ -> "BADCASE"
 
+(* ---------------- parser (C01, C03, C04, C14) ---------------- *)
+
+let canon_common (m : M.msg) : string =
+  let ck = List.map (fun (k, v) -> hex_of_bytes k ^ "=" ^ hex_of_bytes v) m.M.m_cookies in
+  let typed = List.map (fun (id, _) -> String.concat "" (List.map (fun a -> String.make 1 (Char.chr (int_of_ascii a))) (M.reg_name id))) m.M.m_typed in
+  let raw = List.map (fun (k, v) -> hex_of_bytes (M.lower_bytes k) ^ "=" ^ hex_of_bytes v) m.M.m_raw in
+  let cl = match M.typed_get m M.id_content_length with
+    | Some v -> " cl=" ^ decimal_of_n (M.cl_value v) | None -> "" in
+  let te = match M.typed_get m M.id_transfer_encoding with
+    | Some v -> " te=" ^ (if M.te_is_chunked v then "chunked" else "other") | None -> "" in
+  Printf.sprintf " ck=%s t=%s%s%s raw=%s b=%s" (join_sorted ck) (join_sorted typed) cl te (join_sorted raw)
+    (hex_of_bytes m.M.m_body)
+
+let canon_msg (req : bool) (m : M.msg) : string =
+  if req then
+    let q = List.map (fun (k, v) -> hex_of_bytes k ^ "=" ^ hex_of_bytes v) m.M.m_query in
+    Printf.sprintf " m=%d r=%s q=%s v=%d%s" (int_of_n m.M.m_method) (hex_of_bytes m.M.m_resource)
+      (join_sorted q) (int_of_n m.M.m_version) (canon_common m)
+  else
+    Printf.sprintf " c=%s v=%d%s" (decimal_of_z m.M.m_code) (int_of_n m.M.m_version) (canon_common m)
+
+let parser_case (toks : string list) : string =
+  match toks with
+  | mode :: k :: maxsz :: segs when mode = "P" || mode = "Q" ->
+    let req = (k = "R") in
+    let kind = if req then M.KRequest else M.KResponse in
+    let maxsz = nat_of_int (int_of_string maxsz) in
+    let b = Buffer.create 256 in
+    Buffer.add_string b mode;
+    let st = ref M.pstate_init in
+    let finished = ref false in
+    let stop = ref false in
+    List.iter (fun seg ->
+        if !stop then ()
+        else if seg = "|" then (Buffer.add_string b " |"; finished := false)
+        else if !finished then (if mode = "P" then stop := true)
+        else begin
+          (match M.feed maxsz !st (bytes_of_hex seg) with
+           | None -> Buffer.add_string b " F"; finished := true
+           | Some st1 ->
+             let (r, st2) = M.parse_inst kind st1 in
+             st := st2;
+             (match r with
+              | M.PAgain -> Buffer.add_string b " A"
+              | M.PDone -> Buffer.add_string b (" D" ^ canon_msg req st2.M.p_msg); finished := true
+              | M.PErr (M.EHttp c) -> Buffer.add_string b (" E" ^ decimal_of_n c); finished := true
+              | M.PErr M.EExc -> Buffer.add_string b " X"; finished := true));
+          if !finished && mode = "Q" then st := M.pstate_init
+        end) segs;
+    Buffer.contents b
+  | _ -> "BADCASE"
+
 let () =
   let area = Sys.argv.(1) in
   let f = match area with
     | "base64" -> base64_case
+    | "parser" -> parser_case
     | _ -> failwith ("unknown area " ^ area) in
   try
     while true do
